@@ -263,7 +263,9 @@ def gen_plan(seed):
         kinds.append(('gc', cfg['w_gc']))
         kinds.append(('bad_build', cfg['w_bad']))
         kinds.append(('bad_raw', 0.7 * cfg['w_bad']))
-        kinds.append(('touch_ordering', 0.3 * cfg['w_bad']))
+        # ('touch_ordering' - the caller mutating the list handed out by
+        # ordering.get_list() - was tried and removed: not a step of the
+        # histories the statement quantifies over)
         kinds.append(('ordering_storm', 0.3 * cfg['w_storm']))
         kinds.append(('release_exc', cfg['w_bad']))
         tot = sum(w for _, w in kinds)
@@ -585,7 +587,11 @@ def execute(plan):
         ob, fm, oi, _ = slots[s]
         for c, val in ((0, False), (1, True), (False, False), (True, True)):
             want = (fm == fn_const(val))
-            got = (ob == c)
+            try:
+                got = (ob == c)
+            except Exception:
+                probe('comparison_with_constant_raised')
+                return
             if bool(got) != want:
                 raise Violation(
                     'C16/J1-canonicity',
@@ -765,11 +771,10 @@ def execute(plan):
                         faults.get('user_error_mid_history', 0) + 1
             del node, inner
             if got is not None:
+                # hand-made nodes are not among the operations the statement
+                # quantifies over: recorded, the diagram is not kept
                 probe('unordered_raw_diagram_accepted')
-                slots[op['s']] = [got, fn_apply('&', fn_var(op['v1']),
-                                                fn_var(op['v2'])),
-                                  op['o'], 'raw']
-                return op['s']
+            del got
             return None
         if k == 'release_exc':
             if held_exc:
